@@ -74,7 +74,7 @@ def _cases_first_call(tier):
             out.append({'family': 'cf1d', 'ny': a, 'nx': b, 'lat_kind': 'tenths', 'lon_kind': 'tenths', 'lat0': 0.0, 'lon0': 0.0, 'bounds': bnds,
                         'names': 'dim', 'coords_as': 'coord'})
         # coordinates stored as integers or float32 (derived bounds must not inherit the storage type)
-        for lat_kind, lon_kind in (('int', 'intdesc'), ('intdesc', 'int'), ('float32', 'int'), ('int', 'float32')):
+        for lat_kind, lon_kind in (('int', 'intdesc'), ('intdesc', 'int'), ('float32', 'int'), ('int', 'float32'), ('int8', 'int'), ('int', 'int8')):
             for bnds in ('none', 'var'):
                 out.append({'family': 'cf1d', 'ny': a, 'nx': b, 'lat_kind': lat_kind, 'lon_kind': lon_kind,
                             'bounds': bnds, 'names': 'dim', 'coords_as': 'coord'})
@@ -112,7 +112,7 @@ def _cases_first_call(tier):
                     'coords_as': 'coord', 'nt': 1, 'nk': 1})
         out.append({'family': 'cf2d', 'ny': 520, 'nx': 510, 'geometry': 'rect', 'bounds': 'stored', 'holes': 'corner', 'coords_as': 'coord',
                     'nt': 1, 'nk': 1})
-    meshes = ['M1', 'M3', 'M4', 'M5', 'M6', 'M7', 'M8', 'M10', 'M11'] if quick else ['M1', 'M2', 'M3', 'M4', 'M5', 'M6', 'M7', 'M8', 'M9', 'M10', 'M11']
+    meshes = ['M1', 'M3', 'M4', 'M5', 'M6', 'M7', 'M8', 'M10', 'M11', 'M12'] if quick else ['M1', 'M2', 'M3', 'M4', 'M5', 'M6', 'M7', 'M8', 'M9', 'M10', 'M11', 'M12']
     for mesh in meshes:
         for start_index, fill, transposed, coords_as, face_coords in itertools.product(
                 (0, 1), ('nan', 'fillattr'), (False, True), ('var', 'coord'), (False, True)):
@@ -128,6 +128,9 @@ def _cases_first_call(tier):
             out.append({'family': 'ugrid', 'mesh': mesh, 'extra_width': 1, 'fill': fill, 'start_index': 1})
             out.append({'family': 'ugrid', 'mesh': mesh, 'extra_width': 2, 'fill': fill, 'transposed': True})
         out.append({'family': 'ugrid', 'mesh': mesh, 'second_mesh': True})
+        out.append({'family': 'ugrid', 'mesh': mesh, 'start_index': 1, 'fill': 'fillattr', 'start_index_as': 'float', 'supplied': ['face_face']})
+        out.append({'family': 'ugrid', 'mesh': mesh, 'start_index': 0, 'fill': 'nan', 'start_index_as': 'float'})
+        out.append({'family': 'ugrid', 'mesh': mesh, 'second_mesh': 'first', 'start_index': 1})
         # MPAS style: one-based indexes, 0 marks "no node"
         out.append({'family': 'ugrid', 'mesh': mesh, 'start_index': 1, 'fill': 'fillattr', 'fill_value': 0})
         out.append({'family': 'ugrid', 'mesh': mesh, 'start_index': 1, 'fill': 'fillattr', 'fill_value': 0, 'transposed': True, 'io': 'raw'})
